@@ -237,7 +237,7 @@ def jsonable(obs):
 # ----------------------------------------------------- alphabet self-check
 # non-ASCII characters the generators may use, with the class the model gives them
 EXTRA_WORD = '\xb5\xe9\xfc\xdf\u03bb\u0416'
-EXTRA_SPACE = '\x85\xa0\u2028\u3000\u1680\u2003'
+EXTRA_SPACE = '\x85\xa0\u2028\u2029\u3000\u1680\u2003'
 EXTRA_OTHER = '\ufffd\u20ac\u2192\xb7\xb1'
 ASCII_ALL = ''.join(chr(i) for i in range(128) if i != 10)
 
@@ -283,6 +283,10 @@ NOISE = ['', 'Starting benchmark', 'warmup done', '# JMH version: 1.21', '# VM v
          '[Total]', 'success: true', 'wall-time', 'max rss', 'Result "x":', 'Benchmark  Mode  Cnt  Score   Units']
 ODD_CHARS = ['\r', '\t', '\x00', '\ufffd', ' ', ':', '.', 'e', '_', '\x1c', '\xa0', '\u2028', '\xe9', '\u20ac',
              '#', '=', '-', '+', '0', 'm', 'u', 's', '\x7f', '\x0b', '\x0c', '"', "'", '%', '\\', '(', ')']
+
+
+# where str.splitlines() cuts a line but split("\\n") does not (all are white space for `re` and str.strip)
+INNER_SEPARATORS = ['\r', '\x0b', '\x0c', '\x1c', '\x1d', '\x1e', '\x85', '\u2028', '\u2029']
 
 
 def pick(rng, xs):
@@ -434,7 +438,7 @@ def random_string(rng):
 
 def gen_text(rng, adapter, kind=None):
     """(kind, text) for the totality fuzzing of one adapter"""
-    kind = kind or rng.choice(['near', 'near', 'near', 'splice', 'splice', 'random', 'marker', 'marker-near'])
+    kind = kind or rng.choice(['near', 'near', 'near', 'splice', 'splice', 'random', 'marker', 'marker-near', 'sepjoin'])
     own = SHAPES_OF[adapter]
     n = rng.choice([0, 1, 1, 2, 3, 4, 6, 10, 25])
     lines = []
@@ -456,6 +460,18 @@ def gen_text(rng, adapter, kind=None):
     elif kind == 'random':
         for _ in range(n):
             lines.append(random_string(rng))
+    elif kind == 'sepjoin':
+        # separators at which str.splitlines() cuts but split("\\n") does not, inside a line, between
+        # texts that are format lines (or noise) on their own
+        for _ in range(n):
+            parts = []
+            for _ in range(rng.choice([2, 2, 3])):
+                r = rng.random()
+                parts.append(''.join(shape_tokens(rng, pick(rng, own))) if r < 0.7 else pick(rng, NOISE))
+            line = parts[0]
+            for p in parts[1:]:
+                line += pick(rng, INNER_SEPARATORS) + p
+            lines.append(line.replace('\n', ' '))
     else:
         for _ in range(n):
             lines.append(''.join(shape_tokens(rng, pick(rng, own))) if kind == 'marker' or rng.random() < 0.5
